@@ -132,6 +132,16 @@ HISTORIES = {
         ("move", "A", [[4, 4], [1, 1]], "b", False),
         ("noop", "B"), ("move", "B", [[1, S]], "inbox", True), ("noop", "A"),
     ],
+    # RENAME INBOX when the folder's file numbers have a gap (a middle message was expunged, no pack yet)
+    "rename_inbox_with_gap": [
+        ("append", "A", "inbox", ["Flagged"], 946684800), ("append", "A", "inbox", ["Seen"], 0),
+        ("append", "A", "inbox", ["Answered", "k1"], 0), ("append", "A", "inbox", [], 0),
+        ("append", "A", "inbox", ["Seen", "Draft"], 957684800),
+        ("select", "A", "inbox"), ("store", "A", [[2, 2]], "+", ["Deleted"], False, False), ("expunge", "A"),
+        ("nsrename", "A", "inbox", "old", True), ("select", "A", "old"), ("fetch", "A", [[1, S]], "uidflags", False),
+        ("select", "B", "inbox"), ("append", "B", "inbox", [], 0), ("fetch", "B", [[1, S]], "uidflags", False),
+        ("restart",), ("select", "A", "old"), ("fetch", "A", [[1, S]], "uidflags", False),
+    ],
 }
 
 
